@@ -545,7 +545,7 @@ def compileADF(expr, psets):
     adfdict = {}
     func = None
     for pset, subexpr in reversed(list(zip(psets, expr))):
-        pset.context.update(adfdict)
+        pset.context = dict(pset.context, **adfdict)
         func = compile(subexpr, pset)
         adfdict.update({pset.name: func})
     return func
